@@ -291,7 +291,7 @@ func canonEM(k int, prefix, digest []byte) []byte {
 func genAttest(g *hx.Gen, out *hx.Out) {
 	// modulus sizes, including ones that are not a multiple of 8 bits (the encoded message is
 	// ceil(bits/8) bytes long)
-	sizes := []int{1024, 1031, 2048}
+	sizes := []int{1024, 1025, 1031, 2048}
 	if os.Getenv("VERIF_TIER") == "thorough" {
 		sizes = []int{1024, 1025, 1031, 1033, 1536, 2047, 2048, 2049, 3072, 4096}
 	}
